@@ -184,6 +184,13 @@ SEEDS = [
     "A - wCa=l;oa;ca=ls;sa;wDa;wCa=l",
     "A a=d1,b=u1,c=u1u2 wDa;wCa=d2;wMa=d1d2;wDa",
     "A a=c oa;ca=c;sa;ca=c;sa;xa;oa;xa",
+    # round 2 repairs (clean set / watched events keep the live entries) and their neighbours
+    "A a=su1,b=c oa;ca=u1;wCc=d1;wDc;sa",
+    "A a=su1,b=c oa;ca=u1;ob;cb=d1;sb;ca=su1;sb;ca=u1;xa",
+    "A a=su1 oa;ca=u1;wMa=su2;wMa=u2;xa",
+    "A a=s,b=su1 oa;ca=c;ob;cb=u1;wCc=d1;xa;sb;xb",
+    "A a=l oa;ca=ls;wMa=ll;wDa;sa;xa",
+    "A a=l,b=c oa;ca=ls;wMa=ll+Cc=u1;wDb+Ma=s;ca=l;wMa=ss;sa",
 ]
 
 
